@@ -2,6 +2,7 @@
    keeper <I> <T> <start> <end> <arrivals a,b,..|->  -> ok probes=<..> drop=<t|-> tie=<0|1> -/
 import SmppVerif.Model.Wire
 import SmppVerif.Model.Keeper
+import SmppVerif.Model.Supervisor
 
 namespace SmppVerif.DriverSession
 open SmppVerif SmppVerif.Wire
@@ -15,8 +16,32 @@ def keeperTie (I T : Nat) : Nat → List Nat → Bool
     else if a < s + I + T then keeperTie I T a rest
     else a = s + I + T
 
+def parseOutcome (w : String) : Option Supervisor.Outcome :=
+  match w.splitOn ":" with
+  | ["cf", d] => d.toNat?.map .connFail
+  | ["bf", d] => d.toNat?.map .bindFail
+  | ["se", c, d, g] => match c.toNat?, d.toNat?, g.toNat? with
+    | some c, some d, some g => some (.session c d g)
+    | _, _, _ => none
+  | _ => none
+
+def showEv : Supervisor.Ev → String
+  | .connect t => s!"connect@{t}"
+  | .bound t => s!"bound@{t}"
+  | .unbind t => s!"unbind@{t}"
+  | .returned t => s!"returned@{t}"
+
 def step (ws : List String) : Option String :=
   match ws with
+  | "sup" :: mn :: inc :: stop :: lat :: gs :: outs =>
+    match mn.toNat?, inc.toNat?, lat.toNat?, gs.toNat?, outs.mapM parseOutcome with
+    | some mn, some inc, some lat, some gs, some outs =>
+      let stop := if stop = "-" then some none else stop.toNat?.map some
+      match stop with
+      | some stop =>
+        some ("ok " ++ " ".intercalate ((Supervisor.run stop lat gs ⟨0, Policy.Backoff.init mn inc⟩ outs).map showEv))
+      | none => some "bad-op"
+    | _, _, _, _, _ => some "bad-op"
   | ["keeper", i, t, s, e, arr] =>
     match i.toNat?, t.toNat?, s.toNat?, e.toNat?, parseNats arr with
     | some i, some t, some s, some e, some arr =>
